@@ -146,7 +146,7 @@ func init() {
 				}
 			}
 			for _, f := range Formats {
-				for _, tg := range []string{"file", "dir", "empty", "foreign-ext", "nested-missing-dir", "file-noext", "file-dotted-dir"} {
+				for _, tg := range []string{"file", "dir", "empty", "foreign-ext", "nested-missing-dir", "file-noext", "file-dotted-dir", "dir-symlink", "dir-trailing-slash", "file-symlink"} {
 					for _, wp := range []bool{true, false} {
 						for _, pre := range []string{"", "rc1"} {
 							c := baseMeta()
@@ -355,6 +355,24 @@ func checkC15(env *engine.Env, ci any) engine.Outcome {
 		target = ""
 		wantPath, wantFormat = filepath.Join(work, conv), f
 		wantFail = !c.WithP
+	case "dir-symlink":
+		// the target is a symbolic link to an existing directory: the package goes into that directory
+		os.Symlink("outdir", filepath.Join(work, "dist"))
+		target = filepath.Join(work, "dist")
+		wantPath, wantFormat = filepath.Join(work, "outdir", conv), f
+		wantFail = !c.WithP
+	case "dir-trailing-slash":
+		target = filepath.Join(work, "outdir") + "/"
+		wantPath, wantFormat = filepath.Join(work, "outdir", conv), f
+		wantFail = !c.WithP
+	case "file-symlink":
+		// the target is a symbolic link to a (not yet existing) file in another directory: written through the link
+		os.Symlink(filepath.Join("outdir", "real"+extOf[f]), filepath.Join(work, "link"+extOf[f]))
+		target = filepath.Join(work, "link"+extOf[f])
+		wantPath, wantFormat = filepath.Join(work, "outdir", "real"+extOf[f]), f
+		if !c.WithP && f == "archlinux" {
+			wantFail = true // .pkg.tar.zst is not a spelling the packager is inferred from
+		}
 	case "file-noext":
 		// a file target without any extension that does not exist yet: still a file, at exactly that path
 		target = filepath.Join(work, "outdir", "mypackage")
@@ -410,7 +428,7 @@ func checkC15(env *engine.Env, ci any) engine.Outcome {
 	// what exists now?
 	var created []string
 	filepath.Walk(work, func(pth string, fi os.FileInfo, err error) error {
-		if err == nil && !fi.IsDir() && pth != cfgPath {
+		if err == nil && !fi.IsDir() && fi.Mode()&os.ModeSymlink == 0 && pth != cfgPath {
 			_ = 0
 			rel, _ := filepath.Rel(work, pth)
 			created = append(created, rel)
